@@ -2007,7 +2007,13 @@ func bLPop(n *Nodis, conn *redis.Conn, cmd redis.Command) {
 		return
 	}
 	execCommand(conn, func() {
-		k, v := n.BLPop(time.Duration(timeout*float64(time.Second)), keys...)
+		wait := time.Duration(timeout * float64(time.Second))
+		if conn.State&redis.MultiCommit != 0 {
+			// inside EXEC a blocking pop does not wait (as in Redis): the transaction is holding
+			// up every other client
+			wait = -1
+		}
+		k, v := n.BLPop(wait, keys...)
 		if k == "" {
 			conn.WriteArrayNull()
 			return
@@ -2033,7 +2039,13 @@ func bRPop(n *Nodis, conn *redis.Conn, cmd redis.Command) {
 		return
 	}
 	execCommand(conn, func() {
-		k, v := n.BRPop(time.Duration(timeout*float64(time.Second)), keys...)
+		wait := time.Duration(timeout * float64(time.Second))
+		if conn.State&redis.MultiCommit != 0 {
+			// inside EXEC a blocking pop does not wait (as in Redis): the transaction is holding
+			// up every other client
+			wait = -1
+		}
+		k, v := n.BRPop(wait, keys...)
 		if k == "" {
 			conn.WriteArrayNull()
 			return
